@@ -15,7 +15,7 @@ ID = 'C02'
 LEVEL = 'exploration'
 DECIDING = 'estimator_comparisons'
 CHUNK = {'quick': 1, 'thorough': 2}
-TIMEOUT = 1500
+TIMEOUT = {'quick': 600, 'thorough': 1500}
 FAMILIES = ['plateau', 'islands', 'mixture', 'funnel', 'gauss', 'periodic', 'staircase', 'ring', 'corr', 'constant',
             'plateau', 'funnel']
 RTOL = 1e-10
